@@ -247,7 +247,10 @@ def run_history(rng, version, flavour, steps, *, profile=None, calls=True, persi
             inflight = None
             if not mqtt and rng.random() < 0.4:
                 inflight = rng.choice(["255;255;3;0;3;\n", f"{gen.n()};255;0;0;17;2.0\n", gen.line() + "\n"])
-            drv.stop_restart(inflight)
+            if mqtt and flavour == "async" and rng.random() < 0.5:
+                drv.stop_same()             # the same gateway object is stopped and started again
+            else:
+                drv.stop_restart(inflight)
             early()
             drv.start_persistence()
         elif gen.ota_nodes and x < 0.45:
